@@ -69,6 +69,24 @@ CLAIMS = {
          "static analysis: field-write ownership against consensus reachability, call-graph unreachability, constructor must-pass-through"),
 }
 
+# clauses / techniques added in later sessions: (extra claimed clause, extra note, extra technique)
+EXTRA = {
+ "C01": ("; the comparator of every collect-then-sort over map keys orders whole keys (no sub-slice / single component / subset of fields)", "", ""),
+ "C02": ("; thorough tier W1: through cosmos-sdk/ibc-go themselves (whole program with bodies, VTA call graph, per-call-site binding of callbacks) a call made by a precompile handler can reach the bank keeper's balance writer iff it is a tabled bank-moving effect", " The thorough tier re-derives the frozen effects table from the dependencies' source on every run.", "; thorough: whole-program VTA call-graph reachability with per-site callback binding"),
+ "C04": ("; the grant check compares the requested amount with the grant's limit before the effect; thorough tier W3: every handler call that can reach a store write (whole program, VTA) is one the quick rules classify as a Cosmos-side effect", "", "; thorough: whole-program VTA call-graph reachability"),
+ "C09": ("; DisjunctPeriods' emitting closure appends a period on every path and rewrites an emitted period only under an equality of event times", "", ""),
+ "C10": ("; module state lives only in the multistore (no process-local or package-level writes in the module's consensus code)", "", ""),
+ "C11": ("; module state lives only in the multistore (no process-local or package-level writes in the module's consensus code)", "", ""),
+ "C12": ("; module state lives only in the multistore (no process-local or package-level writes in the module's consensus code — a memoised ledger value would survive a reverted message)", "", ""),
+ "C13": ("; module state lives only in the multistore (no process-local or package-level writes in the module's consensus code)", "", ""),
+ "C16": ("; the SDK queries that write (distribution ValidatorDistributionInfo / DelegationRewards / DelegationTotalRewards advance the reward period) run on a discarded cache context; thorough tier W2: no handler outside IsTransaction can reach a Set/Delete of any cosmos-sdk store implementation through any callee (whole program, VTA, per-site callback binding), and every transaction handler can (control)", "", "; thorough: whole-program VTA call-graph reachability with per-site callback binding"),
+ "C17": ("; CalculateBaseFee and its helpers use no machine-word multiplication/shift/addition (arbitrary precision); feemarket state lives only in the multistore", "", ""),
+ "C20": ("; in the query scope (everything reachable from QueryServer implementations) the chain id handed to EVMConfig never derives from the keeper field that BeginBlock re-derives", "", ""),
+}
+for _k, (_c, _n, _t) in EXTRA.items():
+    c0, n0, t0 = CLAIMS[_k]
+    CLAIMS[_k] = (c0 + _c, n0 + _n, t0 + _t)
+
 BUILT = json.load(open('/verif/tools/built.json'))
 
 m = {"version": 1,
